@@ -100,8 +100,12 @@ static int line_to_instr(struct instr *instr_data, char *filtered_asm_str) {
       return EXIT_FAILURE;
     }
   }
-  // find the encoding for a short jump instruction if applicable
-  instr_data->key += instr_data->keyword.is_short;
+  // find the encoding for a short jump instruction if applicable (the next
+  // table row, but only if that row is the rel8 form of the same instruction)
+  if (instr_data->keyword.is_short &&
+      INSTR_TABLE[instr_data->key + 1].name == INSTR_TABLE[instr_data->key].name &&
+      INSTR_TABLE[instr_data->key + 1].encode_operand == S)
+    instr_data->key++;
   // values will be determined during encoding
   instr_data->hex.reg = NONE;
   instr_data->hex.rex = NONE;
